@@ -9,6 +9,7 @@ man = json.load(open('/verif/MANIFEST.json'))
 props = [c['property_id'] for c in man['checks']]
 base = Repo.read_sources()
 known = {k['key'] for k in engine.load_known().get('findings', [])}
+known |= {engine.key_signature(k) for k in known}
 
 def run(args):
     d, prop = args
@@ -21,7 +22,7 @@ def run(args):
     code, ctx = engine.run_property(prop, mod, 'quick', repo=Repo(src), write=False, quiet=True)
     if ctx is None:
         return ('ERR', '')
-    new = [f for f in ctx.findings if f.key not in known]
+    new = [f for f in ctx.findings if f.key not in known and engine.key_signature(f.key) not in known]
     return ('OK', sorted({f.rule for f in new}), [f.text()[:230] for f in new][:2])
 
 jobs = [(d, p) for d in sys.argv[1:] for p in props]
